@@ -182,7 +182,7 @@ def _verus_prop(prop, tier, seed, unit_filters, meta_extra, extra_obs=None):
 
 
 def c02(tier, seed):
-    return _verus_prop("C02", tier, seed, [("layout", None, None), ("prim_types", None, None), ("packed", None, None), ("repr", None, None), ("clang_layout", None, None), ("union_repr", None, None), ("builtin_ty", None, None), ("bf_alloc", r"::bitfields_to_allocation_units(@clang_offsets)?::", None), ("type_layout", None, None)], {
+    return _verus_prop("C02", tier, seed, [("layout", None, None), ("prim_types", None, None), ("packed", None, None), ("repr", None, None), ("clang_layout", None, None), ("union_repr", None, None), ("builtin_ty", None, None), ("bf_alloc", r"::bitfields_to_allocation_units(@clang_offsets)?::", None), ("type_layout", None, None), ("known_layouts", None, None)], {
         "trusted_base": LAYOUT_TRUST,
         "functions_under_contract": LAYOUT_FNS + [
             "bindgen/codegen/helpers.rs: ast_ty::int_kind_rust_type, ast_ty::float_kind_rust_type (unit prim_types: fixed-width kinds get a Rust integer of the same width and sign; platform kinds the std::os::raw alias documented as equivalent; wchar_t / long double / __float128 a type of exactly the C size)",
@@ -191,6 +191,7 @@ def c02(tier, seed):
             "bindgen/clang.rs: Cursor::offset_of_field, Type::{clang_size_of, clang_align_of, size, align, fallible_size, fallible_align, fallible_layout} (unit clang_layout: the numbers handed to the IR are libclang's 64-bit values, unchanged, for every non-negative value; negative codes are errors; the two documented work-arounds)",
             "bindgen/codegen/mod.rs: utils::type_from_named (unit prim_types: the <stdint.h>/<stddef.h> typedef names map to the Rust primitive of the same width and signedness)",
             "bindgen/ir/context.rs: the kind-mapping statement of BindgenContext::build_builtin_ty (unit builtin_ty, let-statement R18): every libclang builtin type kind gets the bindgen kind of the same C type; complex only over floating types (found and repaired F12)",
+            "bindgen/ir/comp.rs: CompInfo::each_known_field_layout (unit known_layouts; the FnMut callback is a sink, rule R16): the #pragma pack detection of is_packed is handed the layout of EVERY member whose layout is known, in order - zero-sized members (flexible arrays) included, they still carry an alignment",
             "bindgen/ir/ty.rs: Type::layout (unit type_layout, shared with C06; rule R31): the layout every padding / alignment / blob computation starts from is clang's whenever clang computed one, and otherwise only an exact derivation",
             "bindgen/ir/comp.rs: CompInfo::is_rust_union and bindgen/codegen/mod.rs: wrap_union_field_if_needed (unit union_repr): a Rust `union` only for defined unions with --untagged-union whose members are all Copy or may be ManuallyDrop-wrapped; in it every member keeps the size/alignment of its C type; otherwise members are zero-sized markers over the blob of the tail statement",
             "bindgen/ir/comp.rs: bitfields_to_allocation_units (unit bf_alloc, shared with C03: its two struct contracts): a bit-field unit is as large as the bits allocated to it demand, which is what places the members that follow it",
@@ -209,10 +210,11 @@ def c02(tier, seed):
 
 
 def c10(tier, seed):
-    return _verus_prop("C10", tier, seed, [("layout", r"::(blob|Layout::known_type_for_size|Layout::for_size_internal|Layout::for_size|integer_type|bitfield_unit|Layout::new|align_to|comp_tail_layout)::", None), ("opaque", None, None), ("opaque_alias", None, None), ("union_repr", r"::union_field_can_copy::", None), ("vouch", None, None), ("impl_debug", r"::(array_arm|instantiation_arm)::", None), ("base_storage", None, None), ("trace_impls", r"::Type::should_be_traced_unconditionally::", None), ("lattice_constrain", r"::HasVtableAnalysis::", None), ("prim_types", r"::(BindgenContext::is_stdint_type|type_from_named)::", None),
+    return _verus_prop("C10", tier, seed, [("layout", r"::(blob|Layout::known_type_for_size|Layout::for_size_internal|Layout::for_size|integer_type|bitfield_unit|Layout::new|align_to|comp_tail_layout)::", None), ("opaque", None, None), ("opaque_alias", None, None), ("module_lines", None, None), ("union_repr", r"::union_field_can_copy::", None), ("vouch", None, None), ("impl_debug", r"::(array_arm|instantiation_arm)::", None), ("base_storage", None, None), ("trace_impls", r"::Type::should_be_traced_unconditionally::", None), ("lattice_constrain", r"::HasVtableAnalysis::", None), ("prim_types", r"::(BindgenContext::is_stdint_type|type_from_named)::", None),
                                            ("constrain", r"::CannotDerive::constrain_type::", None), ("blocklist", None, None), ("repr", None, None)], {
         "trusted_base": LAYOUT_TRUST,
         "functions_under_contract": ["bindgen/ir/ty.rs: Type::should_be_traced_unconditionally (unit trace_impls, shared with C09): pointers, references, arrays, functions, compounds, instantiations and resolved references are traced even when the item is opaque, so an opaque type reachable only through an array is still emitted as a blob", "bindgen/ir/context.rs: BindgenContext::lookup_sizedness and bindgen/ir/comp.rs: Base::requires_storage, Base::is_virtual (unit base_storage): a base class gets a field of its own unless it is virtual or zero-sized, and a type outside the analysed set (a blocklisted class) counts as zero-sized only when the C compiler gives it no size or it is an empty class - so the use of a blocklisted type as a base still names it (found and repaired F28)", "bindgen/codegen/helpers.rs: blob, integer_type, bitfield_unit", "bindgen/ir/layout.rs: Layout::{known_type_for_size, new, for_size_internal, for_size}",
+                                     "bindgen/codegen/mod.rs: the --module-raw-line statement of <Module as CodeGenerator>::codegen (unit module_lines, if-let statement R18): every line the user gave for a module is emitted in order and makes the module count as non-empty, so the user's definition of a blocklisted type survives in a namespace whose items are all blocklisted",
                                      "bindgen/ir/comp.rs: the per-member test of CompInfo::is_rust_union (unit union_repr, brace-less closure R18): whether a union member may sit bare in a Rust `union` is asked of its DECLARED type - a blocklisted typedef is not assumed Copy because the type it aliases is",
                                      "bindgen/codegen/mod.rs: the aliased-type statement of the TemplateAlias | Alias arm of <Type as CodeGenerator>::codegen (unit opaque_alias, let-statement R18): an opaque typedef is an alias for the blob of the typedef's OWN layout (an `aligned` attribute on the typedef changes size and alignment) with no template parameters; a typedef of an inexpressible type falls back to the same blob",
                                      "bindgen/codegen/mod.rs: Item::process_before_codegen and <Item as CodeGenerator>::codegen (unit blocklist): nothing at all is emitted for a blocklisted item, for an item disabled for code generation, or a second time for the same item - whatever the per-kind generators would do",
@@ -269,7 +271,7 @@ def c12(tier, seed):
         "functions_under_contract": ["bindgen/lib.rs: the input-path checks of Bindings::generate (missing -> NotExist, directory -> FolderAsHeader, unreadable -> InsufficientPermissions; file system uninterpreted) and the per-diagnostic step of parse() (severity Error or Fatal -> ClangDiagnostic error) -- blocks extracted by rule R18, unit gen_errors"] + LAYOUT_FNS + ["bindgen/ir/comp.rs: bitfields_to_allocation_units (no-clang-offset mode)", "and the functions of units macro_type, edges, derive_gate, derives, fn_abi (see C05, C07-C09, C14)",
                                      "bindgen/ir/analysis/*.rs: every insert / forward / constrain of the seven analyses under contract answers `Changed` exactly when the fact it owns strictly moved up its lattice (the `Changed`/`Same` clauses of units lattice_insert, lattice_constrain, has_float, has_tp_array, has_destructor, constrain, template_params): with the driver theorem of unit analyze this is the termination argument of the fix-point loops",
                                      "bindgen/ir/context.rs: ItemResolver::resolve (unit resolver): the reference/alias-following loop TERMINATES on every finite IR, cyclic or not (decreases: items not yet seen), never indexes outside the item table, and returns an item of the table",
-                                     "bindgen/codegen/mod.rs: <Vtable as CodeGenerator>::codegen under --vtable-generation (unit typedef_methods: the guard closure of the `if` and the signature lookup of the slot generator, R18): every virtual method the guard lets through has a function type of its own, so the lookup finds one - no panic (found and repaired F40); the pointee lookup of the block-pointer arm of <Type as CodeGenerator>::codegen (--generate-block; F42) and the signature lookup of <Function as CSerialize>::serialize (--wrap-static-fns; F43) look behind typedefs, where the IR invariant gives a function type; that `iter().all(guard)` covers what `filter_map` visits is std's meaning, not under contract", "bindgen/ir/context.rs: the recording statement of BindgenContext::process_replacements (unit codegen_guards, if-let statement R18): a replaces= annotation whose item never came into existence is ignored, its id is only turned into a type id after it was found in the item table", "bindgen/ir/context.rs: BindgenContext::rust_mangle (unit rust_mangle; rule R32: &str / String as character sequences, the keyword list one uninterpreted predicate): the string that reaches proc_macro2::Ident::new (which panics on a non-identifier) contains no `@`, `?` or `$` at any position, whatever the C name contains; names that need no mangling are unchanged", "bindgen/ir/context.rs: the kind-mapping statement of build_builtin_ty does not panic on any builtin kind (found and repaired F12: `_Complex int`)",
+                                     "bindgen/codegen/mod.rs: <Vtable as CodeGenerator>::codegen under --vtable-generation (unit typedef_methods: the guard closure of the `if` and the signature lookup of the slot generator, R18): every virtual method the guard lets through has a function type of its own, so the lookup finds one - no panic (found and repaired F40); the pointee lookup of the block-pointer arm of <Type as CodeGenerator>::codegen (--generate-block; F42) and the signature lookup of <Function as CSerialize>::serialize (--wrap-static-fns; F43) look behind typedefs, where the IR invariant gives a function type; that `iter().all(guard)` covers what `filter_map` visits is std's meaning, not under contract", "bindgen/ir/context.rs: the recording statement of BindgenContext::process_replacements (unit codegen_guards, if-let statement R18): a replaces= annotation is honoured only when its item exists in the item table and is a declared type (struct/union, enum, typedef) - never the signature type of an annotated function (found and repaired F44: stack overflow); ids become type ids only then", "bindgen/ir/context.rs: BindgenContext::rust_mangle (unit rust_mangle; rule R32: &str / String as character sequences, the keyword list one uninterpreted predicate): the string that reaches proc_macro2::Ident::new (which panics on a non-identifier) contains no `@`, `?` or `$` at any position, whatever the C name contains; names that need no mangling are unchanged", "bindgen/ir/context.rs: the kind-mapping statement of build_builtin_ty does not panic on any builtin kind (found and repaired F12: `_Complex int`)",
                                      "bindgen/ir/function.rs: FunctionSig::abi never accepts an ABI that cannot be printed (ClangAbi::Unknown -> UnsupportedAbi; found and repaired F11: Function::codegen and <ClangAbi as ToTokens> panicked on it); bindgen/ir/var.rs: the character-literal arm of Var::parse (found and repaired F10)",
                                      "bindgen/codegen/mod.rs: the signature statement of Method::codegen_method and bindgen/ir/ty.rs: the constant-array arm of Type::from_clang_ty (unit codegen_guards): a method whose signature is not a function type (declared through a typedef) is left out, an array whose element type cannot be expressed gets opaque elements - neither aborts (found and repaired F29, F30)",
                                      "bindgen/codegen/mod.rs: the three naming statements of <Enum as CodeGenerator>::codegen (unit enum_consts, let-statements R18): the parent's canonical name is None exactly for top-level enums and neither `parent_canonical_name.as_ref().unwrap()` is reached with None; bindgen/ir/analysis/template_params.rs: UsedTemplateParameters::constrain and its helpers (unit template_params): the table `.expect()`s and the monotonicity `assert!` cannot fire given the table invariant",
@@ -378,12 +380,12 @@ def c07(tier, seed):
 def c08(tier, seed):
     def extra():
         return units_incrate.run_spec(units_incrate.derive_tables_spec())
-    return _verus_prop("C08", tier, seed, [("derive_gate", None, None), ("derives", None, None), ("constrain", None, None), ("fn_abi", r"function_pointers_can_derive", None),
+    return _verus_prop("C08", tier, seed, [("impl_partialeq", None, None), ("derive_gate", None, None), ("derives", None, None), ("constrain", None, None), ("fn_abi", r"function_pointers_can_derive", None),
                                            # the float exclusion for Eq/Ord and the derive analysis' own subscriptions are C08 mechanisms too
                                            ("edges", r"::(has_float_consider_edge|consider_edge_default)::", None), ("has_float", None, None), ("union_repr", r"::(CompInfo::is_rust_union|union_field_can_copy)::", None), ("bitfield_limit", None, None), ("impl_debug", None, None), ("opaque_wrapper", None, None)], {
         "trusted_base": INCRATE_TRUST + ["env/derive_gate_env.rs: uninterpreted options and analysis lookups; generic impl<T> instantiated at T = ItemId",
                                         "rule-table oracle written from the property statement (kani_incrate/derive_tables.rs)"],
-        "functions_under_contract": ["bindgen/codegen/mod.rs: the derive decision of a forward-declared struct in CompInfo::codegen (unit derives, let-statement R18: only Debug, and only when no option, pattern or annotation switches it off; found and repaired F34) and the statements of utils::prepend_opaque_array_types that build one wrapper definition (unit opaque_wrapper, templates by rule R4u: the __BindgenOpaqueArrayN wrappers name PartialOrd / Ord whenever those derives are requested; found and repaired F33)",
+        "functions_under_contract": ["bindgen/codegen/impl_partialeq.rs: the bit-field arm of gen_partialeq_impl (unit impl_partialeq, block R18, loop by R13): the hand-written `eq` has exactly one getter comparison per NAMED bit-field of an allocation unit, in order; an unnamed bit-field is skipped and does not end the comparison", "bindgen/codegen/mod.rs: the derive decision of a forward-declared struct in CompInfo::codegen (unit derives, let-statement R18: only Debug, and only when no option, pattern or annotation switches it off; found and repaired F34) and the statements of utils::prepend_opaque_array_types that build one wrapper definition (unit opaque_wrapper, templates by rule R4u: the __BindgenOpaqueArrayN wrappers name PartialOrd / Ord whenever those derives are requested; found and repaired F33)",
                                      "bindgen/ir/context.rs: the eight impl<T> CanDerive{Debug,Default,Copy,Hash,PartialOrd,PartialEq,Eq,Ord} for T bodies",
                                      "bindgen/ir/analysis/derive.rs: CannotDerive::constrain_type (the whole per-type rule: blocklisted, excluded by name, opaque, simple kinds, pointers/fn pointers, arrays, vectors, compounds, type references, template instantiations) and DeriveTrait::{not_by_name, can_derive_*} (Verus unit constrain; member join = uninterpreted s_join)",
                                      "bindgen/ir/comp.rs: CompInfo::has_too_large_bitfield_unit (unit bitfield_limit; Iterator::any desugared by rule R25): true exactly when SOME bit-field allocation unit is larger than the 32-element limit",
